@@ -50,7 +50,7 @@ var Profiles = map[string]Profile{
 		MultiMax: -1, Modes: []string{"call"}, TargetOuts: 1},
 	"redef": {Types: []string{"T1", "T2", "T3", "T4"}, Names: []string{"", "", "a", "b"}, Subs: []string{""},
 		MaxIn: 1, MaxOut: 1, MaxTIn: 2, MaxInputs: 2, MaxConvs: 4, Forms: []string{"pos", "struct", "ptr"}, FailProb: 0, OnceProb: 0.1,
-		MultiMax: 0, Modes: []string{"redefine"}, TargetOuts: 2},
+		MultiMax: 0, Modes: []string{"redefine"}, TargetOuts: 2, DefProb: 0.25},
 	"convert": {Types: []string{"T1", "T2", "T3", "T4"}, Ifaces: []string{"I1", "I2"}, Names: []string{"", "", "a", "b"}, Subs: []string{"", "", "s"},
 		MaxIn: 2, MaxOut: 2, MaxTIn: 1, MaxInputs: 3, MaxConvs: 4, Forms: []string{"pos", "struct", "ptr", "built"}, FailProb: 0.1, OnceProb: 0.1,
 		MultiMax: -1, Modes: []string{"convert"}},
